@@ -35,7 +35,7 @@ def generate(ctx):
     for g in range(n):
         L = rng.choice([30, 45, 60, 90])
         genome = gen.rand_seq(rng, L)
-        feats = anno.random_features(rng, L, max_feats=3, codon_starts=True)
+        feats = anno.random_features(rng, L, max_feats=3, codon_starts=True, rotate=0.3)
         genome, feats = anno.patch_stops(rng, genome, feats)
         names = set()
         feats = [f for f in feats if not (f.name in names or names.add(f.name))]
@@ -46,7 +46,7 @@ def generate(ctx):
         append = rng.random() < 0.6
         nt = any(f.strand == "-" or len(f.segments) > 1 or f.codon_start > 1 for f in feats)
         for suffix in ("gb", "gff"):
-            annob = anno.render_genbank(genome, feats, rng) if suffix == "gb" else anno.render_gff(genome, feats)
+            annob = anno.render_genbank(genome, feats, rng) if suffix == "gb" else anno.render_gff(genome, feats, mix=rng)
             c = vcommon.variants_case(cid, msa, "REF", annob, suffix, {"kind": suffix, "nontrivial": nt, "group": g},
                                       append_snps=append,
                                       info={"ref_row": ref_row, "queries": [(nm, r) for nm, r in recs if nm != "REF"],
